@@ -15,7 +15,7 @@ indices / argsorts / multinomial draws, the vectors the acquisition optimiser en
 told results, and the numerics `log`, `pow`, ConfigSpace's float rounding (`NumEnv`, arbitrary
 functions).  Contracts:
 
-* `RoundOK`: every candidate offered by `Space.rvs` is a member (contract of `Dimension.rvs` /
+* `OpOK`: every candidate offered by `Space.rvs` is a member (contract of `Dimension.rvs` /
   ConfigSpace sampling — property C10 and L3 of this check look at the real thing);
 * a `free` optimiser output is only used on spaces without numeric-ordinal "identity"
   dimensions — the only surrogate with gradients (GP) normalises every dimension
@@ -30,22 +30,22 @@ open DH.Ask
 /-- **C02 (membership).**  For every declared problem, every freshly set-up optimizer (any
 `n_initial_points`, duplicate filter on or off, dummy or real surrogate, **any** multi-point
 strategy — `cl_min/cl_mean/cl_max/topk/boltzmann/qUCB/qUCBd` —, any failure policy) whose
-pre-computed initial points are members, every history of `ask(n)` / `tell(results)` rounds with
-any results, and every environment in which the sampled candidates are members: every
+pre-computed initial points are members, every sequence of `ask(n)` / `tell(results)` calls (in
+any order, any results), and every environment in which the sampled candidates are members: every
 configuration returned by every `ask` is a member of the declared space (kind and inclusive
 bounds, declared choices, canonical value for inactive hyperparameters, no forbidden clause). -/
 theorem C02_member (ne : NumEnv) (d : Decl) (hw : d.wfAll = true) (c₀ : Cbo Config)
     (hfresh : Fresh c₀) (hinit : ∀ x ∈ c₀.opt.initSamples, memSpace d x = true)
-    (rounds : List (Round Config (List Slice)))
-    (henv : ∀ r ∈ rounds, RoundOK (fun x => memSpace d x = true) (Tok ne d) r)
+    (calls : List (Op Config (List Slice)))
+    (henv : ∀ o ∈ calls, OpOK (fun x => memSpace d x = true) (Tok ne d) o)
     (c : Cbo Config) (Z : List (Sel Config))
-    (hrun : run (memOps ne d) c₀ rounds = .ok (c, Z)) :
+    (hrun : runOps (memOps ne d) c₀ calls = .ok (c, Z)) :
     ∀ z ∈ Z, memSpace d z.x = true := by
   have hi : PInv (fun x => memSpace d x = true) c₀.opt :=
     ⟨hinit, (by intro x hx; rw [hfresh.1] at hx; cases hx),
       (by intro l hl; rw [hfresh.2.1] at hl; cases hl),
       (by intro n st X hX; rw [hfresh.2.2] at hX; cases hX)⟩
-  exact (run_P (memOps_ok ne d hw) hi henv hrun).2
+  exact (runOps_P (memOps_ok ne d hw) hi henv hrun).2
 
 /-- **C02 (accepted back).**  A member of the declared space passes `check_x_in_space`, the test
 `Optimizer.tell` applies to what it is told. -/
@@ -158,14 +158,14 @@ def cands1 : List Config :=
   [[.str "y", .int 2, .int 1, .real 1], [.str "x", .int 4, .int 3, .real 2],
    [.str "w", .int 1, .int 1, .real 3], [.str "x", .int 1, .int 9, .real 4]]
 
-def fitIdx (i : Nat) : Fit Config (List Slice) := { cands := cands1, pick := .idx i }
+def fitIdx (i : Nat) : Fit Config (List Slice) := { cands := cands1, pick := .idx (fun _ => i) }
 
 def round1 : Round Config (List Slice) :=
   { n := 2,
     askEnv := { cands := cands1, copyFit := fitIdx 0, steps := [⟨cands1, fitIdx 1⟩, ⟨cands1, fitIdx 0⟩],
-                orders := [] },
+                orders := fun _ => [], refresh := fitIdx 0 },
     results := [([.str "y", .int 2, .int 1, .real 1], .val), ([.str "x", .int 4, .int 3, .real 2], .fail)],
-    tellEnv := { cands := cands1, pick := .free [[5], [9 / 2], [100], [-3]] 2 } }
+    tellEnv := { cands := cands1, pick := .free [[5], [9 / 2], [100], [-3]] (fun _ => 2) } }
 
 example : ∀ c ∈ cands1, memSpace d1 c = true := by decide +kernel
 
